@@ -1,9 +1,14 @@
 package main
 
 import (
+	"errors"
+	"runtime"
+	"time"
+
 	"encoding/binary"
 	"fmt"
 	"syscall"
+	"verif/engine/guard"
 
 	libaudit "github.com/elastic/go-libaudit/v2"
 	"github.com/elastic/go-libaudit/v2/vshim/vsys"
@@ -22,12 +27,21 @@ type sockKernel struct {
 	sim    *ksim.Sim
 	closed []int
 	badFD  int
+	domain int
+	proto  int
+	groups int64 // multicast groups the socket was bound with (-1: never bound)
 }
 
-func (k *sockKernel) Socket(domain, typ, proto int) (int, error) { return k.fd, nil }
+func (k *sockKernel) Socket(domain, typ, proto int) (int, error) {
+	k.domain, k.proto = domain, proto
+	return k.fd, nil
+}
 func (k *sockKernel) Bind(fd int, sa syscall.Sockaddr) error {
 	if fd != k.fd {
 		k.badFD++
+	}
+	if nl, ok := sa.(*syscall.SockaddrNetlink); ok {
+		k.groups = int64(nl.Groups)
 	}
 	return nil
 }
@@ -66,59 +80,270 @@ func (k *sockKernel) Close(fd int) error {
 	return nil
 }
 
+type countWriter struct{ n int }
+
+func (w *countWriter) Write(p []byte) (int, error) { w.n += len(p); return len(p), nil }
+
 // stackPass: GetStatus, a setter in both modes, GetRules and Close through AuditClient -> NetlinkClient -> socket
 // seam, for socket descriptors 0, 1, 2, 3, 7, 1023 and port ids 0, 1, the pid, 2^32-1.
 func stackPass(run *ev.Run, prop string) {
 	for _, fd := range []int{0, 1, 2, 3, 7, 1023} {
-		for _, port := range []uint32{0, 1, uint32(syscall.Getpid()), 1<<32 - 1} {
-			k := &sockKernel{fd: fd, port: port, sim: ksim.New(nil)}
-			k.sim.NoDeviations = true
-			k.sim.Rules = simRules(2)
-			for i := range k.sim.Status {
-				k.sim.Status[i] = uint32(0x01010101 * (i + 1))
-			}
-			vsys.Install(k)
-			nl, err := libaudit.NewNetlinkClient(syscall.NETLINK_AUDIT, 0, nil, nil)
-			rep := func(sig, format string, a ...interface{}) {
-				run.Report(ev.Violation{Sig: prop + " " + sig, What: fmt.Sprintf("AuditClient over the library's NetlinkClient over a simulated socket layer that answered socket() with descriptor %d and port id %d: ", fd, port) + fmt.Sprintf(format, a...), Replay: map[string]interface{}{"fd": fd, "port": port}})
-			}
-			if err != nil {
-				rep("stack-new-client", "NewNetlinkClient failed: %v", err)
+		for pi, port := range []uint32{0, 1, uint32(syscall.Getpid()), 1<<32 - 1} {
+			for ctor := 0; ctor < 4; ctor++ {
+				if ctor > 0 && (pi+fd)%2 == 1 {
+					continue
+				}
+				k := &sockKernel{fd: fd, port: port, sim: ksim.New(nil), groups: -1}
+				k.sim.NoDeviations = true
+				k.sim.Rules = simRules(2)
+				for i := range k.sim.Status {
+					k.sim.Status[i] = uint32(0x01010101 * (i + 1))
+				}
+				vsys.Install(k)
+				// the exported constructors, too (the socket seam is installed: nothing real is opened): unicast client,
+				// multicast reader (bound to the read-log group), a client with a debug writer
+				var nl libaudit.NetlinkSendReceiver
+				var c *libaudit.AuditClient
+				var err error
+				var dbg countWriter
+				wantGroups := int64(0)
+				switch ctor {
+				case 0:
+					nl, err = libaudit.NewNetlinkClient(syscall.NETLINK_AUDIT, 0, nil, nil)
+				case 1:
+					c, err = libaudit.NewAuditClient(nil)
+				case 2:
+					c, err = libaudit.NewMulticastAuditClient(nil)
+					wantGroups = 1 // AUDIT_NLGRP_READLOG
+				case 3:
+					c, err = libaudit.NewAuditClient(&dbg)
+				}
+				rep := func(sig, format string, a ...interface{}) {
+					run.Report(ev.Violation{Sig: prop + " " + sig, What: fmt.Sprintf("AuditClient over the library's NetlinkClient over a simulated socket layer that answered socket() with descriptor %d and port id %d: ", fd, port) + fmt.Sprintf(format, a...), Replay: map[string]interface{}{"fd": fd, "port": port}})
+				}
+				if err != nil {
+					rep("stack-new-client", "NewNetlinkClient failed: %v", err)
+					vsys.Uninstall()
+					continue
+				}
+				if c == nil {
+					c = &libaudit.AuditClient{Netlink: nl}
+				}
+				if k.domain != syscall.AF_NETLINK || k.proto != syscall.NETLINK_AUDIT || k.groups != wantGroups {
+					rep("stack-socket-parameters", "constructor %d opened socket(domain %d, protocol %d) bound to groups %#x, want AF_NETLINK (%d), NETLINK_AUDIT (%d), groups %#x", ctor, k.domain, k.proto, k.groups, syscall.AF_NETLINK, syscall.NETLINK_AUDIT, wantGroups)
+				}
+				st, err := c.GetStatus()
+				if err != nil || st == nil {
+					rep("stack-getstatus", "GetStatus returned %v although the kernel acknowledged and replied", err)
+				} else if st.Enabled != 0x02020202 || uint32(st.Mask) != 0x01010101 {
+					rep("stack-getstatus", "GetStatus returned %+v", st)
+				}
+				before := len(k.sim.Sends)
+				if err := c.SetRateLimit(9, libaudit.WaitForReply); err != nil || len(k.sim.Sends) != before+1 {
+					rep("stack-setter", "SetRateLimit(WaitForReply) returned %v, %d requests reached the kernel", err, len(k.sim.Sends)-before)
+				}
+				before = len(k.sim.Sends)
+				if err := c.SetBacklogLimit(8, libaudit.NoWait); err != nil || len(k.sim.Sends) != before+1 {
+					rep("stack-setter", "SetBacklogLimit(NoWait) returned %v, %d requests reached the kernel", err, len(k.sim.Sends)-before)
+				}
+				if err := c.WaitForPendingACKs(); err != nil {
+					rep("stack-wait", "WaitForPendingACKs returned %v", err)
+				}
+				rules, err := c.GetRules()
+				if err != nil || !sameRules(rules, simRules(2)) {
+					rep("stack-getrules", "GetRules returned %d rules, err %v", len(rules), err)
+				}
+				if err := c.Close(); err != nil || len(k.closed) != 1 || k.closed[0] != fd {
+					rep("stack-close", "Close returned %v and closed descriptors %v, want [%d]", err, k.closed, fd)
+				}
+				if ctor == 3 && dbg.n == 0 {
+					rep("stack-debug-writer", "the debug writer given to NewAuditClient received nothing although datagrams were read")
+				}
+				if k.badFD > 0 {
+					rep("stack-wrong-descriptor", "%d socket calls were made on a descriptor other than the socket's", k.badFD)
+				}
 				vsys.Uninstall()
-				continue
+				run.Add("traces_validated_against_impl", 1)
+				run.Add("transitions", 6)
 			}
-			c := &libaudit.AuditClient{Netlink: nl}
-			st, err := c.GetStatus()
-			if err != nil || st == nil {
-				rep("stack-getstatus", "GetStatus returned %v although the kernel acknowledged and replied", err)
-			} else if st.Enabled != 0x02020202 || uint32(st.Mask) != 0x01010101 {
-				rep("stack-getstatus", "GetStatus returned %+v", st)
-			}
-			before := len(k.sim.Sends)
-			if err := c.SetRateLimit(9, libaudit.WaitForReply); err != nil || len(k.sim.Sends) != before+1 {
-				rep("stack-setter", "SetRateLimit(WaitForReply) returned %v, %d requests reached the kernel", err, len(k.sim.Sends)-before)
-			}
-			before = len(k.sim.Sends)
-			if err := c.SetBacklogLimit(8, libaudit.NoWait); err != nil || len(k.sim.Sends) != before+1 {
-				rep("stack-setter", "SetBacklogLimit(NoWait) returned %v, %d requests reached the kernel", err, len(k.sim.Sends)-before)
-			}
-			if err := c.WaitForPendingACKs(); err != nil {
-				rep("stack-wait", "WaitForPendingACKs returned %v", err)
-			}
-			rules, err := c.GetRules()
-			if err != nil || !sameRules(rules, simRules(2)) {
-				rep("stack-getrules", "GetRules returned %d rules, err %v", len(rules), err)
-			}
-			if err := c.Close(); err != nil || len(k.closed) != 1 || k.closed[0] != fd {
-				rep("stack-close", "Close returned %v and closed descriptors %v, want [%d]", err, k.closed, fd)
-			}
-			if k.badFD > 0 {
-				rep("stack-wrong-descriptor", "%d socket calls were made on a descriptor other than the socket's", k.badFD)
-			}
-			vsys.Uninstall()
-			run.Add("traces_validated_against_impl", 1)
-			run.Add("transitions", 6)
 		}
 	}
 	run.Set("stack_pass", "AuditClient -> NetlinkClient -> socket seam for descriptors 0,1,2,3,7,1023 x 4 port ids")
+}
+
+// errnoDecoderPass: the exported decoder of an acknowledgement's payload, libaudit.ParseNetlinkError, for every payload
+// length 0..12 x verdicts (0, every errno 1..133, 4095, positive and extreme words), the bytes placed flush against an
+// inaccessible page at either end and at every alignment: shorter than a word => an error that is no errno; a zero word
+// => nil; a negative word => exactly that errno (errors.Is and ==).
+func errnoDecoderPass(run *ev.Run, prop string) {
+	g := guardRegion()
+	words := []int32{0, -4095, -4096, 1, 13, 1<<31 - 1, -1 << 31}
+	for e := int32(1); e <= 133; e++ {
+		words = append(words, -e)
+	}
+	n := 0
+	for _, w := range words {
+		for l := 0; l <= 12; l++ {
+			for place := 0; place < 6; place++ {
+				b := make([]byte, l)
+				for i := range b {
+					b[i] = 0xEE
+				}
+				if l >= 4 {
+					binary.LittleEndian.PutUint32(b, uint32(w))
+				} else {
+					var full [4]byte
+					binary.LittleEndian.PutUint32(full[:], uint32(w))
+					copy(b, full[:l])
+				}
+				var in []byte
+				switch {
+				case g == nil || place == 0:
+					in = b
+				case place == 1:
+					in = g.AtEnd(b)
+				case place == 2:
+					in = g.AtStart(b)
+				default:
+					// other alignments inside an array
+					arr := make([]byte, l+8)
+					in = arr[place-2 : place-2+l : place-2+l]
+					copy(in, b)
+				}
+				var err error
+				if r := guard.Call(func() { err = libaudit.ParseNetlinkError(in) }); r != nil {
+					run.Report(ev.Violation{Sig: prop + " errno-decoder-fault", What: fmt.Sprintf("ParseNetlinkError on a %d-byte payload (placement %d) faulted: %v", l, place, r), Replay: map[string]interface{}{"len": l, "word": w}})
+					return
+				}
+				n++
+				var en syscall.Errno
+				isErrno := errors.As(err, &en)
+				switch {
+				case l < 4:
+					if err == nil || isErrno {
+						run.Report(ev.Violation{Sig: prop + " errno-decoder-short", What: fmt.Sprintf("ParseNetlinkError on a %d-byte payload % x returned %v: too short to hold a verdict, the answer must be an error that names no errno", l, in, err), Replay: map[string]interface{}{"len": l, "word": w}})
+						return
+					}
+				case w == 0:
+					if err != nil {
+						run.Report(ev.Violation{Sig: prop + " errno-decoder-zero", What: fmt.Sprintf("ParseNetlinkError on a zero verdict (%d bytes) returned %v", l, err), Replay: map[string]interface{}{"len": l}})
+						return
+					}
+				case w < 0 && w > -4096:
+					if !isErrno || en != syscall.Errno(-w) || err != syscall.Errno(-w) {
+						run.Report(ev.Violation{Sig: prop + " errno-decoder-verdict", What: fmt.Sprintf("ParseNetlinkError on verdict %d (%d bytes, placement %d) returned %#v (%v), want errno %d", w, l, place, err, err, -w), Replay: map[string]interface{}{"len": l, "word": w}})
+						return
+					}
+				default:
+					if err == nil {
+						run.Report(ev.Violation{Sig: prop + " errno-decoder-nonzero-nil", What: fmt.Sprintf("ParseNetlinkError on the non-zero word %d returned nil", w), Replay: map[string]interface{}{"len": l, "word": w}})
+						return
+					}
+				}
+			}
+		}
+	}
+	run.Add("traces_validated_against_impl", int64(n))
+	run.Set("errno_decoder_pass", fmt.Sprintf("%d payloads (lengths 0..12 x %d words x 6 placements)", n, len(words)))
+}
+
+// ---- what happens after the caller has let go -----------------------------------------------------------------
+
+// runAndDrop executes a history on a fresh client and returns only the simulated kernel: when it returns, the client
+// is unreachable.
+//
+//go:noinline
+func runAndDrop(hist []string) *ksim.Sim {
+	sim := ksim.New(nil)
+	sim.NoDeviations = true
+	c := &libaudit.AuditClient{Netlink: sim}
+	for _, op := range hist {
+		switch op {
+		case "SetPID":
+			_ = c.SetPID(libaudit.WaitForReply)
+		case "SetPIDNoWait":
+			_ = c.SetPID(libaudit.NoWait)
+		case "Rate":
+			_ = c.SetRateLimit(3, libaudit.NoWait)
+		case "Wait":
+			_ = c.WaitForPendingACKs()
+		case "Status":
+			_, _ = c.GetStatus()
+		case "Rules":
+			_, _ = c.GetRules()
+		case "Close":
+			_ = c.Close()
+		}
+	}
+	return sim
+}
+
+// collectGarbage runs garbage collections until finalizers queued by them have had their turn: a sentinel object with its own
+// finalizer is dropped in each round and waited for (the runtime runs finalizers one after the other on one goroutine),
+// three rounds (an object revived by a finalizer is finalised a cycle later).  False if the runtime did not get there
+// within a minute (then nothing is concluded).
+func collectGarbage() bool {
+	for round := 0; round < 3; round++ {
+		done := make(chan struct{})
+		func() {
+			s := new([64]byte)
+			runtime.SetFinalizer(s, func(*[64]byte) { close(done) })
+		}()
+		deadline := time.After(time.Minute)
+		for finished := false; !finished; {
+			runtime.GC()
+			select {
+			case <-done:
+				finished = true
+			case <-deadline:
+				return false
+			case <-time.After(5 * time.Millisecond):
+			}
+		}
+	}
+	return true
+}
+
+// afterlifePass: a client that was closed by its owner is DONE: when it later becomes unreachable and the garbage
+// collector runs (finalizers, cleanups, weak references), nothing more reaches the kernel - no second close of a
+// descriptor number that may long belong to something else, no request.  Every history of <=3 ops that ends with
+// Close, observed through the simulated kernel after three collection rounds.
+func afterlifePass(run *ev.Run, prop string) {
+	ops := []string{"SetPID", "SetPIDNoWait", "Rate", "Wait", "Status", "Rules", "Close"}
+	var hists [][]string
+	var rec func(cur []string)
+	rec = func(cur []string) {
+		if len(cur) > 0 && cur[len(cur)-1] == "Close" {
+			hists = append(hists, append([]string{}, cur...))
+		}
+		if len(cur) == 3 {
+			return
+		}
+		for _, o := range ops {
+			rec(append(cur, o))
+		}
+	}
+	rec(nil)
+	type obs struct {
+		hist          []string
+		sim           *ksim.Sim
+		closes, sends int
+	}
+	var all []obs
+	for _, h := range hists {
+		sim := runAndDrop(h)
+		all = append(all, obs{h, sim, sim.Closes, len(sim.Sends)})
+	}
+	if !collectGarbage() {
+		run.Set("afterlife_pass", "skipped: the runtime did not run finalizers within a minute")
+		return
+	}
+	for _, o := range all {
+		if o.sim.Closes != o.closes || len(o.sim.Sends) != o.sends {
+			run.Report(ev.Violation{Sig: prop + " activity-after-close-and-collection", What: fmt.Sprintf("history %v on a client that was then dropped: after the history the kernel had seen %d close(s) and %d request(s); after garbage collections it has seen %d close(s) and %d request(s) - something (a finalizer) acted for a client its owner had already closed", o.hist, o.closes, o.sends, o.sim.Closes, len(o.sim.Sends)), Replay: map[string]interface{}{"history": o.hist}})
+			break
+		}
+	}
+	run.Add("traces_validated_against_impl", int64(len(all)))
+	run.Set("afterlife_pass", fmt.Sprintf("%d histories ending in Close, client dropped, 3 collection rounds, kernel-side activity compared", len(all)))
 }
